@@ -74,7 +74,7 @@ class SDevice(Device):
     ''' Deriv of charge_costs(). '''
     r = r.reshape((len(self),))
     cost1_deriv = self.c1*2*r
-    cost2_deriv = self.c2*-1*np.hstack((r[1:], [r[len(r)-1]]))
+    cost2_deriv = self.c2*-1*(np.hstack((r[1:], [0])) + np.hstack(([0], r[:-1])))
     cost3_deriv = self.deep_damage_at_deriv(r)
     return cost1_deriv + cost2_deriv + cost3_deriv
 
